@@ -285,6 +285,16 @@ fn main() -> Result<()> {
             "ANT_VERIF_DERIVED node_socket_addr={:?}",
             SocketAddr::new(opt.ip, opt.port)
         );
+        // the network id each protocol string carries (its last path segment), as the node would announce it
+        let last = |s: &str| s.rsplit('/').next().unwrap_or("").to_string();
+        let ids = vec![
+            version::get_network_id(),
+            last(&version::IDENTIFY_NODE_VERSION_STR.read().expect("lock")),
+            last(&version::IDENTIFY_CLIENT_VERSION_STR.read().expect("lock")),
+            last(&version::REQ_RESPONSE_VERSION_STR.read().expect("lock")),
+            last(&identify_protocol_str),
+        ];
+        println!("ANT_VERIF_DERIVED protocol_network_ids={ids:?}");
         std::process::exit(0);
     }
 
